@@ -1017,7 +1017,8 @@ def op_roundtrip(ctx, op):
     rec['loaded'] = loaded
     rec['path'] = path
     ctx.events.append({'i': op['i'], 'op': 'roundtrip', 'outcome': outcome,
-                       'texts': [scrub_meta(b) for a, b in texts][:1]})
+                       'texts': [ctx.W.scrub(scrub_meta(b))
+                                 for a, b in texts][:1]})
     ctx.shape.append('O%d%s' % (op['cycles'], outcome[0]))
     if op['cycles'] > 1 or ctag != 'plain':
         ctx.nontrivial = True
